@@ -41,7 +41,7 @@ def cases(draw, transports):
         lst.insert(min(pos + i, len(lst)), mk)
     return {'kind': kind, 'text_mode': text_mode, 'words': words, 'pieces': pieces, 'ending': ending, 'list': lst,
             'entry': draw(st.sampled_from(['expect', 'expect', 'expect_exact', 'expect_list', 'read', 'readline'])),
-            'T': draw(st.sampled_from([0.5, 2.0, 0])), 'use_poll': draw(st.booleans()),
+            'T': draw(st.sampled_from([0.5, 2.0, 0, -0.25])), 'use_poll': draw(st.booleans()),      # (-0.25: a caller's "time left" that has run out)
             'after': draw(st.lists(st.sampled_from(['expect', 'expect_exact', 'read', 'readline', 'expect_eof']), min_size=3, max_size=3)),
             # all the peer does happens right after the reader's k-th system call (between two specific calls of
             # read_nonblocking: poll, read, liveness check, timed wait) instead of at times
@@ -152,7 +152,7 @@ def check_sim(case, col=None):
         # the child dies while something else keeps the terminal open: EOF is then detected through the
         # liveness check, at the latest when the timed wait expires
         acts.append({'t': t, 'op': 'exit', 'status': 0})
-    if case['T'] == 0:
+    if case['T'] <= 0:
         for a in acts:
             a['t'] = 0.0
     if case.get('pin'):
@@ -185,8 +185,8 @@ def check_sim(case, col=None):
                 return
             want = expected_kind(case, text)
             got_kind = judge(sp, case, ret, exc, None, where)
-            if case['T'] == 0:
-                pass            # one poll: how much was readable depends on maxread; only the shape is judged
+            if case['T'] <= 0:
+                pass            # one poll (or none): how much was readable depends on maxread; only the shape is judged
             else:
                 if want == 'match' and got_kind is not None:
                     raise Violation('marker-instead-of-match', '%s: %s although the stream %r satisfies the call' % (where, got_kind, text))
